@@ -326,3 +326,15 @@ def run(ctx):
         ctx.notes.append("RPU list shorter than the video: %d frames beyond the list received the last list entry, %d received an earlier "
                          "entry (the tool repeats the RPU written last in decode order, which is not always the last of the list)"
                          % (fb_last, fb_other))
+
+
+def replay(ctx, path):
+    """every case is a deterministic function of (seed, tier): a replay re-runs the check with the seed and
+    tier recorded in the replay file (the offending input files are kept next to it for inspection)"""
+    import json
+    d = json.load(open(path))
+    ctx.seed = int(d.get("seed", ctx.seed))
+    ctx.tier = d.get("tier", ctx.tier)
+    ctx.rng = common.Lcg(ctx.seed)
+    run(ctx)
+    return ctx.finish()
